@@ -57,6 +57,8 @@ fn random_options(rng: &mut Rng) -> Options {
         0 => Some(0),
         1 => Some(rng.range(1, 5000) as usize),
         2 => Some(usize::MAX),
+        // generous but finite: at or above any dictionary a header can announce
+        3 => Some(*rng.pick(&[1usize << 32, 1 << 33, 1 << 40, (1 << 32) - 1, 1 << 31])),
         _ => None,
     };
     sut::opts(us, memlimit, rng.chance(1, 4))
@@ -276,10 +278,13 @@ pub fn gen_case(rng: &mut Rng, tier: Tier) -> Case {
                 let lp = rng.below(5) as u8;
                 let pb = rng.below(5) as u8;
                 let props = lc + 9 * (lp + 5 * pb);
-                let mut d = sut::lzma_header(props, *rng.pick(&[u32::MAX, 1 << 31, u32::MAX - 1]), Some(Some(*rng.pick(&[1u64 << 63, u64::MAX - 1, 1 << 40]))));
+                let mut d = sut::lzma_header(props, *rng.pick(&[u32::MAX, 1 << 31, u32::MAX - 1, 1 << 30, 1 << 28]), Some(Some(*rng.pick(&[1u64 << 63, u64::MAX - 1, 1 << 40]))));
                 let n = rng.range(0, 12) as usize;
                 d.extend_from_slice(&vec![0u8; n]);
-                options = sut::opts(UnpackedSize::ReadFromHeader, None, rng.chance(1, 4));
+                // with and without a memory limit that is generous enough for the announcement: a
+                // limit is a ceiling, not a licence to allocate what the header announces
+                let ml = *rng.pick(&[None, None, Some(usize::MAX), Some(1usize << 32), Some(1usize << 40), Some((1usize << 32) - 1)]);
+                options = sut::opts(UnpackedSize::ReadFromHeader, ml, rng.chance(1, 4));
                 desc = format!("header lc{} lp{} pb{} announcing a huge dictionary and size, {} zero bytes behind it", lc, lp, pb, n);
                 d
             }
